@@ -221,7 +221,16 @@ def check_property(pid, tier, seed):
     real = [(k, r) for (k, _), r in zip(all_obs, results) if not r.expect_fail]
     guards = [(k, r) for (k, _), r in zip(all_obs, results) if r.expect_fail]
     bad = [(k, r) for k, r in real if not r.ok]
-    checker_errors = [f"canary/cover obligation {r.name} was PROVED (vacuous hypotheses or unsound encoding)" for k, r in guards if not r.ok]
+    # a canary clause is instantiated once per return path; it must fail to prove on AT LEAST ONE of them
+    # (on some paths it can be legitimately true); covers (requires-satisfiable) must each fail.
+    groups = {}
+    for k, r in guards:
+        base = r.name.split("@L")[0] if r.kind == "canary" else r.name
+        groups.setdefault((k, base), []).append(r)
+    checker_errors = [
+        f"canary/cover obligation {base} was PROVED on every path (vacuous hypotheses or unsound encoding)"
+        for (k, base), rs in groups.items() if all(not r.ok for r in rs)
+    ]
     checker_errors += [f"{r.name}: {r.model}" for k, r in real if r.status == "error"]
 
     # run-time cross-check on the real code (bounded; also the refutation engine)
@@ -320,9 +329,13 @@ def check_property(pid, tier, seed):
     if not cs and not lms and not extra_res:
         exit_code = 3
         lines.append(f"CHECKER-ERROR no contracts registered for {pid} (zero obligations)")
-    if n_ob == 0 and (cs or lms):
+    if n_ob == 0 and (cs or lms) and not violations and not undecided:
         exit_code = max(exit_code, 3)
         lines.append("CHECKER-ERROR zero obligations generated")
+    if violations:
+        exit_code = 1
+        for u in undecided:
+            lines.append(f"UNDECIDED property={pid} contract={u['contract']} reason={u['reason']}")
 
     # ---- evidence -----------------------------------------------------------------------------
     from vcheck.levels import LEVEL
@@ -343,7 +356,7 @@ def check_property(pid, tier, seed):
         "functions_under_contract": functions,
         "by_backend": by_solver,
         "solver_time_s": round(solver_time, 2),
-        "guards": {"canaries_and_covers": len(guards), "failed_to_prove_as_required": sum(1 for _, r in guards if r.ok), "canary_sat": sum(1 for _, r in guards if r.status == "refuted")},
+        "guards": {"canaries_and_covers": len(guards), "groups": len(groups), "failed_to_prove_as_required": sum(1 for rs in groups.values() if any(r.ok for r in rs)), "canary_sat": sum(1 for _, r in guards if r.status == "refuted")},
         "runtime_crosscheck": {"label": "bounded", **rt_total},
         "bounded": extra_res.get("bounded", []),
         "extraction_drops": dropped[:50],
